@@ -440,6 +440,33 @@ def check_head_reaches_herd(ctx, iso, key, value, case):
     ctx.nontrivial_case(dict(iso3=iso, key=key, value=value))
 
 
+@st.composite
+def multi_head_case(draw):
+    k = draw(st.integers(2, 5))
+    sps = draw(st.lists(st.sampled_from(herd.SPECIES), min_size=k, max_size=k, unique=True))     # in the order the user writes them
+    return dict(kind="heads", iso3=draw(gen.country()), keys=[sp + "_head" for sp in sps],
+                values=draw(st.lists(st.integers(1, 10**8), min_size=k, max_size=k, unique=True)))
+
+
+def check_heads_reach_herd(ctx, c):
+    """several head-count overrides in one scenario, in any order: each changes exactly the species it names"""
+    iso = c["iso3"]
+    base = capture_stock_row(iso, {"NMONTHS": 1})
+    want = {k: (v + 1 if base[k] == v else v) for k, v in zip(c["keys"], c["values"])}
+    ci = {"NMONTHS": 1}
+    for k in c["keys"]:                      # insertion order = the order drawn
+        ci[k + "_start"] = want[k]
+    got = capture_stock_row(iso, ci)
+    diff = sorted(k for k in set(base.index) | set(got.index) if k not in base.index or k not in got.index or not RO.same(base[k], got[k]))
+    wrong = [k for k in c["keys"] if got.get(k) != want[k]]
+    ctx.event("head_overrides_%d_at_once" % len(c["keys"]))
+    if wrong or diff != sorted(c["keys"]):
+        ctx.fail("head-count-override-does-not-reach-the-herd-model-exactly",
+                 "%s %r: herd sees %r; stock row differs from the shipped one in %s" %
+                 (iso, [(k, want[k]) for k in c["keys"]], [(k, got.get(k)) for k in c["keys"]], diff[:6]), c)
+    ctx.nontrivial_case(c)
+
+
 # ---------------------------------------------------------------------------------------------
 def shard(ctx):
     thorough = ctx.tier == "thorough"
@@ -510,6 +537,7 @@ def shard(ctx):
     drive(ctx, bad_case(), lambda c: check_rejection(ctx, c["iso3"], c["options"], "%s %s=%r" % (c["how"], c["family"], c["options"].get(c["family"])), c),
           400 if thorough else 12, shrink=False, tag="bad")
     drive(ctx, override_case(), lambda c: check_override(ctx, c), 1500 if thorough else 30, shrink=False, tag="override")
+    drive(ctx, multi_head_case(), lambda c: check_heads_reach_herd(ctx, c), 600 if thorough else 12, tag="heads")
 
     if thorough:
         # all ordered pairs of setters (finite, enumerated)
@@ -563,5 +591,7 @@ def replay(case, ctx):
             ctx.fail("callers-option-dictionary-modified", case["iso3"], case)
     elif k == "head":
         check_head_reaches_herd(ctx, case["iso3"], case["key"], case["value"], case)
+    elif k == "heads":
+        check_heads_reach_herd(ctx, case)
     else:
         raise RuntimeError(k)
